@@ -236,6 +236,60 @@ def union_key(c, sol, u):
     return UNION_OTHER
 
 
+SELF_CROSS = 'geom.self-cross'
+SELF_CROSS_TOUCH = 'geom.self-cross.touching-vertex-removed'
+
+
+def proper_crossings(sol):
+    """[(path i, path j, edge, edge)] for every pair of solution edges that cross properly (exact)"""
+    es = [(i, a, b) for i, p in enumerate(sol) for a, b in polys.cyc_edges(p)]
+    out = []
+    for x in range(len(es)):
+        i, a, b = es[x]
+        for y in range(x + 1, len(es)):
+            j, c, d = es[y]
+            if polys.sgn(polys.cross(a, b, c)) * polys.sgn(polys.cross(a, b, d)) < 0 and \
+               polys.sgn(polys.cross(c, d, a)) * polys.sgn(polys.cross(c, d, b)) < 0:
+                out.append((i, j, (a, b), (c, d)))
+    return out
+
+
+def crossing_point(e, f):
+    """the crossing point of two properly crossing segments if it is a lattice point, else None"""
+    (a, b), (c, d) = e, f
+    dx1, dy1, dx2, dy2 = b[0] - a[0], b[1] - a[1], d[0] - c[0], d[1] - c[1]
+    det = dx1 * dy2 - dy1 * dx2
+    t = (c[0] - a[0]) * dy2 - (c[1] - a[1]) * dx2
+    if det == 0 or (t * dx1) % det or (t * dy1) % det:
+        return None
+    return (a[0] + t * dx1 // det, a[1] + t * dy1 // det)
+
+
+def self_cross_key(env, c, ct, fr, pc, rs, build, sol):
+    """Classifier of a 'two solution edges properly cross' failure.  One known mode gets its own key: PreserveCollinear
+    is off, every crossing is in a lattice point X, and the same operation with PreserveCollinear on returns paths
+    without any proper crossing in which every such X is a vertex -- i.e. boundary strands only touched in X (e.g. an
+    outer loop linked with a loop of opposite orientation in a common vertex) and CleanCollinear removed the collinear
+    vertex X of one strand, which turns the touch into a crossing that FixSelfIntersects (edge pairs two apart of one
+    ring only) does not see.  Everything else keeps the plain key."""
+    if pc:
+        return SELF_CROSS
+    xs = proper_crossings(sol)
+    pts = []
+    for i, j, e, f in xs:
+        X = crossing_point(e, f)
+        if X is None:
+            return SELF_CROSS
+        pts.append(X)
+    exe = env.exes.get('bool.' + build) or env.exes['bool.plain']
+    q = vf.run_lines(exe, [bool_line(c, ct, fr, 1, rs)], timeout=60)
+    r = parse_bool(q.stdout.strip()) if q.returncode == 0 else None
+    if not xs or r is None or proper_crossings(r['closed']):
+        return SELF_CROSS
+    verts = set(v for p in r['closed'] for v in p)
+    return SELF_CROSS_TOUCH if all(X in verts for X in pts) else SELF_CROSS
+
+
 VERTEX_FAR = 'geom.vertex-far'
 VERTEX_FAR_HUGE = 'geom.vertex-far.beyond-2^53'
 
@@ -337,6 +391,16 @@ def parse_codes(line):
     return [(int(t[1 + 2 * i]), int(t[2 + 2 * i])) for i in range(k)]
 
 
+def isolate(exe, shard, per_line=10):
+    """first line of a failed shard on which the binary crashes or hangs (> per_line seconds) when run alone; lines are
+    tried one per process, 64 at a time, so a rare failure costs little and a frequent one is found in the first batch"""
+    for i in range(0, len(shard), 64):
+        outs, fails = vf.par_lines(exe, shard[i:i + 64], timeout=per_line, chunk=1)
+        if fails:
+            return fails[0][0][0], fails[0][1], fails[0][2]
+    return None, None, ''
+
+
 def need(out, fails, what):
     if fails:
         raise vf.Infra('%s failed: rc=%s %s' % (what, fails[0][1], (fails[0][2] or '')[:400]))
@@ -350,6 +414,7 @@ class Env:
         self.exes = {}
         self.oracle = None
         self.region = None
+        self.crashed = False
 
 
 def eval_one(env, c, ct, fr, pc, rs, build='plain', geom=None, want_tie=True):
@@ -382,7 +447,8 @@ def eval_one(env, c, ct, fr, pc, rs, build='plain', geom=None, want_tie=True):
     if codes is None:
         raise vf.Infra('oracle ALL failed: ' + o[:300])
     for code, idx in codes:
-        key = vertex_far_key(env, c, r['closed'][idx]) if code == 6 else KEYS[code]
+        key = (vertex_far_key(env, c, r['closed'][idx]) if code == 6 else
+               self_cross_key(env, c, ct, fr, pc, rs, build, r['closed']) if code == 3 else KEYS[code])
         keys.add(key)
         det.setdefault('paths', {})[key] = idx
     if geom and r['closed']:
@@ -477,9 +543,11 @@ def phase_synthetic(ctx, env, n):
         cl.append('SYN' + body[5:]); ol.append(body); meta.append((pc, rs, rings))
     a, fa = vf.par_lines(env.exes['rings'], cl, timeout=300)
     if fa:
-        l, rc, err = vf.isolate_failure(env.exes['rings'], fa[0][0])
+        l, rc, err = isolate(env.exes['rings'], fa[0][0])
+        if l is None:
+            raise vf.Infra('cx_rings SYN shard failed (rc=%s) but no single line fails alone: %s' % (fa[0][1], fa[0][2][-300:]))
         ctx.violation('crash.buildpaths', 'BuildPaths64 crashed or hung on a synthetic ring (rc=%s): %s' % (rc, err[-200:]),
-                      replay=dict(kind='syn', line=l or fa[0][0][:5]))
+                      replay=dict(kind='line', line=l))
         return
     b = need(*vf.par_lines(env.oracle, ol, timeout=600), 'oracle BUILD')
     micro = splits = 0
@@ -537,6 +605,9 @@ def phase_stream(ctx, env, cases, label, combos_per_case=None, builds=('plain',)
     """cases: list of dicts(S,O,C,kind,regime[,geom]).  Runs every case under clip type x fill rule (all 16, or a random
     subset), random pc/rs; tie on the plain build; structural/bbox/(geometric) clauses through the extracted checker."""
     rng = ctx.rng.fork(13 + len(label))
+    ctx.log('stream %s: %d cases' % (label, len(cases)))
+    if env.crashed:      # a crash / hang with its input is already reported; every further stream would wait for the same timeout
+        return
     jobs = []      # (case idx, ct, fr, pc, rs, build)
     for ci, c in enumerate(cases):
         combos = [(ct, fr) for ct in CT for fr in FR]
@@ -553,11 +624,14 @@ def phase_stream(ctx, env, cases, label, combos_per_case=None, builds=('plain',)
         use_rings = (b == 'plain' and 'rings' in env.exes)
         exe = env.exes['rings'] if use_rings else env.exes['bool.' + b]
         lines = [(rings_line if use_rings else bool_line)(cases[jobs[k][0]], *jobs[k][1:5]) for k in idxs]
-        o, fails = vf.par_lines(exe, lines, timeout=600)
+        o, fails = vf.par_lines(exe, lines, timeout=300 if ctx.quick else 900)
         if fails:
-            l, rc, err = vf.isolate_failure(exe, fails[0][0])
-            ctx.violation('crash.execute', 'Execute crashed or hung (rc=%s, build %s): %s' % (rc if l else fails[0][1], b, (err or fails[0][2])[-300:]),
-                          replay=dict(kind='line', build=b, line=l or fails[0][0][:5]))
+            l, rc, err = isolate(exe, fails[0][0])
+            if l is None:
+                raise vf.Infra('harness shard failed (rc=%s, build %s) but no single line fails alone: %s' % (fails[0][1], b, fails[0][2][-300:]))
+            ctx.violation('crash.execute', 'Execute crashed or hung for more than 10 s (rc=%s, build %s): %s ... %s' % (rc, b, l[:200], err[-300:]),
+                          replay=dict(kind='line', build=b, line=l))
+            env.crashed = True
             return
         for k, line in zip(idxs, o):
             outs[k] = (parse_rings if use_rings else parse_bool)(line)
@@ -600,7 +674,8 @@ def phase_stream(ctx, env, cases, label, combos_per_case=None, builds=('plain',)
             nontrivial.add((ci, ct, fr))
             ctx.hist('solution_paths', min(len(outs[k]['closed']), 8))
         for code, idx in codes:
-            key = vertex_far_key(env, cases[ci], outs[k]['closed'][idx]) if code == 6 else KEYS[code]
+            key = (vertex_far_key(env, cases[ci], outs[k]['closed'][idx]) if code == 6 else
+                   self_cross_key(env, cases[ci], ct, fr, pc, rs, b, outs[k]['closed']) if code == 3 else KEYS[code])
             ctx.hist('failing_evaluations_by_key', key)
             found.setdefault(key, (k, '%s: solution path %d = %s' % (key, idx, outs[k]['closed'][idx][:12])))
     # Union idempotence on the geometric cases (second run with the same build and the same pc/rs settings)
@@ -613,7 +688,14 @@ def phase_stream(ctx, env, cases, label, combos_per_case=None, builds=('plain',)
                     ul.append(reunion_line(fr2, pc, rs, outs[k]['closed'])); uidx.append((k, fr2))
         if not ul:
             continue
-        uo = need(*vf.par_lines(env.exes['bool.' + b], ul, timeout=600), 'cx_bool union')
+        uo, ufails = vf.par_lines(env.exes['bool.' + b], ul, timeout=300 if ctx.quick else 900)
+        if ufails:
+            l, rc, err = isolate(env.exes['bool.' + b], ufails[0][0])
+            if l is None:
+                raise vf.Infra('cx_bool union shard failed (rc=%s) but no single line fails alone: %s' % (ufails[0][1], ufails[0][2][-300:]))
+            ctx.violation('crash.reunion', 'Union of a solution crashed or hung for more than 10 s (rc=%s, build %s): %s' % (rc, b, l[:200]),
+                          replay=dict(kind='line', build=b, line=l))
+            continue
         for (k, fr2), line in zip(uidx, uo):
             u = parse_bool(line)
             ctx.count('union_idempotence_checks')
@@ -691,7 +773,9 @@ def has_failing_input(ctx):
 
 def run(ctx):
     pr = vf.coq_props(ctx, 'C03')
+    ctx.log('proofs %s (%.1fs)' % ('ok' if pr['ok'] else 'BROKEN', pr['wall']))
     env = setup(ctx)
+    ctx.log('harnesses and oracles ready')
     broken = (not pr['ok']) or 'rings' not in env.exes
     mul = (1 if ctx.quick else 12) * (3 if broken else 1)
     corpus = load_corpus()
@@ -701,7 +785,8 @@ def run(ctx):
         ctx.cov['corpus_cases'] = len(corpus)
     syn_bad = None
     if 'rings' in env.exes:
-        syn_bad = phase_synthetic(ctx, env, 30000 * mul)
+        ctx.log('synthetic rings and leaf hypothesis')
+        syn_bad = phase_synthetic(ctx, env, 20000 * mul)
         leaf_hypothesis(ctx, env, 20000 * mul)
     rng = ctx.rng.fork(1)
     nasty = [nasty_case(rng) for _ in range(2500 * mul)]
